@@ -458,3 +458,117 @@ assign_sliding = [sliding_unit(False), sliding_unit(True)]
 for _u in assign_sliding:
     _u.replay = sliding_replay
 UNITS += assign_sliding
+
+
+# ------------------------------------------------------------------------------ create_count_table: the blacklist dictionary
+# "blacklist filter": every interval of the BED file must be in the dictionary the filter consults (bounded: 3 rows).
+import ast as _ast      # noqa: E402
+from pyvc import blocks as _blocks, segstr as _segstr     # noqa: E402
+from pyvc.engine import Builtin as _Builtin      # noqa: E402
+
+
+def bl_setup(eng):
+    eng.ghost.clear()
+    rows = []
+    for i in range(3):
+        c = _segstr.register_atom(eng, named(STR, 'bed_contig_%d' % i), ' \t\n\r\x0b\x0c')
+        s_, e_ = named(INT, 'bed_start_%d' % i), named(INT, 'bed_end_%d' % i)
+        eng.assume(z3.And(z3.Length(c.z) >= 1, s_.z >= 0, e_.z >= s_.z))
+        rows.append((c, s_, e_))
+    eng.spec_env['ROWS'] = rows
+    lines = [_segstr.build([c, '\t'] + _segstr.parts_of(eng.to_str(s_)) + ['\t'] + _segstr.parts_of(eng.to_str(e_)) + ['\n']) for c, s_, e_ in rows]
+    fh = Obj('TextFile', {'lines': lines})
+    fh.vc_immutable = True
+    stubs.STUBS['TextFile'] = {'methods': {'__enter__': lambda e, o: o, '__exit__': lambda e, o, *a: None,
+                                           '__iter__': lambda e, o: list(o.attrs['lines'])}, 'props': {}, 'setters': {}}
+    eng.spec_env['OPEN'] = _Builtin('open', lambda e, a, k, n: fh)
+
+
+def bl_args(eng, name):
+    o = Obj('Namespace', {'blacklist': 'blacklist.bed'})
+    o.vc_immutable = True
+    return o
+
+
+def bl_block(f):
+    return _blocks.if_with_test(f, 'args.blacklist is not None')
+
+
+blacklist_parse = Contract(
+    PROP, F + '::create_count_table', name='create_count_table[blacklist dictionary, 3 BED rows]',
+    block=bl_block,
+    params={'args': bl_args},
+    setup=bl_setup,
+    pre_state=lambda eng, fr: fr.env.update({'open': eng.spec_env['OPEN']}),
+    ensures={
+        'every_bed_interval_is_in_the_dictionary_of_its_contig':
+            'all(any(c == ROWS[i][0] and any(t[0] == ROWS[i][1] and t[1] == ROWS[i][2] for t in blacklist_dic[c]) '
+            'for c in blacklist_dic) for i in range(3))',
+        'nothing_else_is_blacklisted': 'sum([len(blacklist_dic[c]) for c in blacklist_dic]) == 3',
+    },
+    raises={},
+    bounded='a BED file of 3 rows (symbolic contig names - equal or different - and coordinates)',
+    assumptions=['BED rows: contig, start, end separated by tabs; text file iteration yields the lines (A4)'],
+)
+UNITS.append(blacklist_parse)
+
+
+# ------------------------------------------------------------------------------ create_count_table: contig lengths per BAM file
+# bins "inside the contig" are judged with the contig lengths of the file the read comes from (bounded: two files, one read each)
+REFLEN = z3.Function('reference_length_in_file', z3.StringSort(), z3.StringSort(), z3.IntSort())
+
+
+def files_setup(eng):
+    eng.ghost.clear()
+    eng.ghost['assigned_with'] = []
+    eng.spec_env['GHOST'] = eng.ghost
+    eng.spec_env['REFLEN_OF'] = _Builtin('REFLEN_OF', lambda e, a, k, n: Sym(REFLEN(z3.StringVal(a[0]), z3.StringVal(a[1])), INT))
+
+    def bam(e, a, k, n):
+        o = Obj('BamFile', {'name': a[0], 'mapped': 1, 'unmapped': 0, 'nocoordinate': 0})
+        o.vc_immutable = True
+        return o
+    stubs.STUBS['BamFile'] = {
+        'methods': {'__enter__': lambda e, o: o, '__exit__': lambda e, o, *a: None,
+                    'get_reference_length': lambda e, o, r: Sym(REFLEN(z3.StringVal(o.attrs['name']), z3.StringVal(r)), INT),
+                    '__iter__': lambda e, o: [Obj('ReadOf', {'file': o.attrs['name']})],
+                    'fetch': lambda e, o, *a, **k: [Obj('ReadOf', {'file': o.attrs['name']})]},
+        'props': {'references': lambda e, o: ['chrA', 'chrB']}, 'setters': {}}
+    externals.EXTRA['pysam.AlignmentFile'] = bam
+
+    def assign(e, f, a, k, n):
+        read, args = a[0], a[2]
+        e.ghost['assigned_with'].append((read.attrs['file'], dict(args.attrs['ref_lengths'])))
+        return 1
+    eng.loader.call_hooks[Q + 'assignReads'] = assign
+
+
+def files_args(eng, name):
+    b = named(INT, 'bin')
+    eng.assume(b.z >= 1)
+    return Obj('Namespace', {'alignmentfiles': ['first.bam', 'second.bam'], 'bin': b, 'bedfile': None, 'contig': None, 'head': None})
+
+
+def files_block(f):
+    return _blocks.for_with_iter(f, 'args.alignmentfiles', nth=1)
+
+
+per_file_lengths = Contract(
+    PROP, F + '::create_count_table', name='create_count_table[contig lengths of the file being read, 2 BAM files]',
+    block=files_block,
+    params={'args': files_args},
+    setup=files_setup,
+    pre_state=lambda eng, fr: fr.env.update({'countTable': {}, 'joinFeatures': True, 'featureTags': ['DS'], 'sampleTags': ['SM'],
+                                             'blacklist_dic': None, 'assigned': 0}),
+    ensures={
+        'every_read_is_binned_with_the_contig_lengths_of_its_own_file':
+            'len(GHOST["assigned_with"]) == 2 and all(rec[1]["chrA"] == REFLEN_OF(rec[0], "chrA") and '
+            'rec[1]["chrB"] == REFLEN_OF(rec[0], "chrB") for rec in GHOST["assigned_with"])',
+        'files_in_order': '[rec[0] for rec in GHOST["assigned_with"]] == ["first.bam", "second.bam"]',
+    },
+    raises={},
+    bounded='two alignment files with one read each, two contigs (symbolic lengths per file)',
+    assumptions=['pysam.AlignmentFile through a stub (references, get_reference_length, iteration); assignReads recorded with '
+                 'the ref_lengths in effect at the call'],
+)
+UNITS.append(per_file_lengths)
